@@ -202,6 +202,9 @@ func diffTree(old, new []Entry) (removed []string, upsert []Entry) {
 }
 
 // ---------------------------------------------------------------- running
+// ToConfig converts the harness configuration to the real one.
+func ToConfig(c Cfg) *config.ConfigType { return toConfig(c) }
+
 func toConfig(c Cfg) *config.ConfigType {
 	return &config.ConfigType{Basepath: c.Base, Layerdirs: c.Layers, LayerBuildRoot: c.BuildRoot,
 		LayerBinPkgdir: c.BinPkg, LayerGeneratedir: c.Gen, LayerOvfsWorkdir: c.Work, LayerOvfsUpperdir: c.Upper,
@@ -441,6 +444,12 @@ func entryTerm(e Entry) string {
 	}
 	return q.Pair(q.Hx(string(e.Path)), n)
 }
+
+// FsTerm, CfgTerm, CmdTerm: Gallina terms for other case formats.
+func FsTerm(es []Entry) string { return fsTerm(es) }
+func CfgTerm(c Cfg) string    { return cfgTerm(c) }
+func CmdTerm(c Cmd) string    { return cmdTerm(c) }
+func DumpTree(root string) []Entry { return dumpTree(root) }
 
 func fsTerm(es []Entry) string {
 	ts := make([]string, len(es))
